@@ -9,6 +9,7 @@ package main
 
 import (
 	"fmt"
+	"go/token"
 	"go/types"
 	"sort"
 	"strings"
@@ -17,7 +18,7 @@ import (
 )
 
 func init() {
-	registerEngine("X", []string{"X1", "X2"}, runEngineX)
+	registerEngine("X", []string{"X1", "X2", "X3", "X4", "X5"}, runEngineX)
 }
 
 func runEngineX(p *Prog, o *obls) {
@@ -91,6 +92,9 @@ func runEngineX(p *Prog, o *obls) {
 	}
 	o.ok("X1", "inspected", "-", fmt.Sprintf("%d option-configured field(s)", len(fields)))
 	x2AttrsFollowBytes(p, o)
+	x3ReturnedAttrs(p, o)
+	x4PerStreamConfig(p, o)
+	x5CacheKeys(p, o)
 }
 
 // X2 — attributes travel with the bytes they describe. The Attributes map a reader returns is the place where inner
@@ -161,7 +165,7 @@ func x2AttrsFollowBytes(p *Prog, o *obls) {
 					continue
 				}
 				// a length computed from the read's (a trailer stripped: n-4) is still that packet's
-				if arithOf(p, v, func(w ssa.Value) bool { return isRead(w, 0) }, 0) {
+				if !otherLength(p, v, func(w ssa.Value) bool { return isRead(w, 0) }, 0) {
 					continue
 				}
 				other = shortExpr(p, v)
@@ -205,4 +209,293 @@ func arithOf(p *Prog, v ssa.Value, is func(ssa.Value) bool, d int) bool {
 		return arithOf(p, x.X, is, d+1)
 	}
 	return false
+}
+
+// X3 — after the upstream read, a reader works with the attributes the read returned. Where the library has a reader
+// of a kind (RTP, RTCP) that substitutes the bytes it hands up (X2: today the jitter buffer, on the RTP path), the
+// attributes a reader passed *down* describe the packet that was read from the network, and the attributes that came
+// back describe the packet it was actually given. A reader closure of such a kind that, after its upstream read, still
+// uses the attributes parameter — parses the header "from" it, hands it to its recorder — applies the header cached
+// for one packet to the bytes of another (wrong sequence numbers and sizes in whatever it records; a slice-bounds
+// panic where the bytes are cut by that header).
+func x3ReturnedAttrs(p *Prog, o *obls) {
+	closures, _ := p.PktClosures()
+	// which kinds have a substituting reader
+	subst := map[ClosureKind]string{}
+	for _, c := range closures {
+		if c.Kind != RTPReader && c.Kind != RTCPReader {
+			continue
+		}
+		reads := nextCalls(p, c)
+		fn := c.Fn
+		if len(reads) == 0 || fn.Signature.Results().Len() != 3 {
+			continue
+		}
+		for _, b := range fn.Blocks {
+			ret, ok := b.Instrs[len(b.Instrs)-1].(*ssa.Return)
+			if !ok || b == fn.Recover || len(ret.Results) != 3 {
+				continue
+			}
+			if otherLength(p, returnedValue(ret, 0), func(w ssa.Value) bool {
+				ex, ok := w.(*ssa.Extract)
+				if !ok || ex.Index != 0 {
+					return false
+				}
+				for _, r := range reads {
+					if ex.Tuple == ssa.Value(r) {
+						return true
+					}
+				}
+				return false
+			}, 0) {
+				subst[c.Kind] = closureKey(c)
+			}
+		}
+	}
+	n := 0
+	for _, c := range closures {
+		if c.Kind != RTPReader && c.Kind != RTCPReader {
+			continue
+		}
+		reads := nextCalls(p, c)
+		fn := c.Fn
+		if len(reads) == 0 || len(fn.Params) < 2 {
+			continue
+		}
+		key := closureKey(c) + ":returned-attrs"
+		if subst[c.Kind] == "" {
+			o.ok("X3", key, p.Pos(fn.Pos()), "no reader of this kind in the library hands up other bytes than it read: the attributes passed down and those returned describe the same packet")
+			continue
+		}
+		n++
+		par := fn.Params[len(fn.Params)-1]
+		if !strings.HasSuffix(typeKey(par.Type()), "interceptor.Attributes") {
+			o.ok("X3", key, p.Pos(fn.Pos()), "no attributes parameter")
+			continue
+		}
+		var bad []string
+		for _, f := range allNested(fn) {
+			instrsOf(f, func(in ssa.Instruction) {
+				uses := false
+				for _, op := range in.Operands(nil) {
+					if *op != nil && p.origin(*op) == ssa.Value(par) {
+						uses = true
+					}
+				}
+				if !uses {
+					return
+				}
+				if _, isDbg := in.(*ssa.DebugRef); isDbg {
+					return
+				}
+				if st, isStore := in.(*ssa.Store); isStore {
+					if _, isAl := st.Addr.(*ssa.Alloc); isAl && st.Val == ssa.Value(par) {
+						return // the parameter's own cell
+					}
+				}
+				for _, r := range reads {
+					if in == ssa.Instruction(r) {
+						return
+					}
+				}
+				// only uses that can execute after a read
+				after := f != fn
+				for _, r := range reads {
+					if f == fn && (r.Block() == in.Block() && instrIndex(r) < instrIndex(in) || r.Block() != in.Block() && r.Block().Dominates(in.Block())) {
+						after = true
+					}
+				}
+				if !after {
+					return
+				}
+				if _, isRet := in.(*ssa.Return); isRet {
+					return // handing the caller's own map back (on a path with nothing read) is A2's business
+				}
+				bad = append(bad, p.instrPos(in))
+			})
+		}
+		if len(bad) > 0 {
+			sort.Strings(bad)
+			o.bad("X3", key, bad[0], fmt.Sprintf("the attributes *parameter* is used after the upstream read at %s: an inner reader of this kind (%s) returns other bytes than it read, with attributes of their own — the parameter still holds what inner interceptors cached for the packet that was read, not for the packet this reader was given", strings.Join(dedupe(bad), ", "), shortCallee(subst[c.Kind])))
+		} else {
+			o.ok("X3", key, p.Pos(fn.Pos()), "after the upstream read only the attributes it returned are used")
+		}
+	}
+	o.ok("X3", "inspected", "-", fmt.Sprintf("%d reader closure(s) of a kind that has a substituting reader", n))
+}
+
+// X4 — what a Bind call learns about one stream is not kept in a field of the whole interceptor. BindLocalStream and
+// BindRemoteStream run once per stream; the StreamInfo they are given (SSRC, clock rate, negotiated header-extension
+// IDs, payload types) belongs to that stream. A value derived from it that is stored into a plain field of the
+// interceptor — not into a per-stream object, a map entry keyed by the stream, or a variable the returned closure
+// captures — is overwritten by the next Bind: every stream bound earlier then works with the last stream's parameters
+// (packets of the first stream parsed with the second stream's extension ID; feedback attributed to the wrong packets).
+func x4PerStreamConfig(p *Prog, o *obls) {
+	n := 0
+	for _, fn := range p.Funcs {
+		if fn.Blocks == nil || fn.Parent() != nil || fn.Signature.Recv() == nil {
+			continue
+		}
+		if fn.Name() != "BindLocalStream" && fn.Name() != "BindRemoteStream" {
+			continue
+		}
+		var info *ssa.Parameter
+		for _, par := range fn.Params[1:] {
+			if strings.HasSuffix(typeKey(deref(par.Type())), "interceptor.StreamInfo") {
+				info = par
+			}
+		}
+		if info == nil || namedOf(deref(fn.Params[0].Type())) == nil {
+			continue
+		}
+		if !p.InUniverse(fn) {
+			continue
+		}
+		n++
+		recv := ssa.Value(fn.Params[0])
+		fromInfo := func(v ssa.Value) bool {
+			u, ok := v.(*ssa.UnOp)
+			if !ok || u.Op != token.MUL {
+				return false
+			}
+			r := p.origin(addrRoot(u.X))
+			for i := 0; i < 4 && r != ssa.Value(info); i++ {
+				// a load through something loaded from info (info.RTPHeaderExtensions[i].ID)
+				u2, ok := r.(*ssa.UnOp)
+				if !ok || u2.Op != token.MUL {
+					break
+				}
+				r = p.origin(addrRoot(u2.X))
+			}
+			return r == ssa.Value(info)
+		}
+		var bad []string
+		// the Bind method and the repository helpers it hands (receiver, value) to are looked at; literals are not:
+		// what a closure stores at packet time is not "learned at Bind"
+		instrsOf(fn, func(in ssa.Instruction) {
+			st, ok := in.(*ssa.Store)
+			if !ok {
+				return
+			}
+			fa, ok := st.Addr.(*ssa.FieldAddr)
+			if !ok || p.origin(fa.X) != recv {
+				return
+			}
+			if _, isConst := st.Val.(*ssa.Const); isConst {
+				return
+			}
+			if p.backwardReaches(st.Val, fromInfo) {
+				bad = append(bad, fmt.Sprintf("%s is assigned at %s a value derived from the StreamInfo of the stream being bound", fieldName(fieldKeyAddr(fa)), p.instrPos(st)))
+			}
+		})
+		key := funcKey(fn) + ":per-stream-config"
+		if len(bad) > 0 {
+			sort.Strings(bad)
+			o.bad("X4", key, strings.Fields(strings.SplitN(bad[0], " at ", 2)[1])[0], strings.Join(dedupe(bad), "; ")+": the field belongs to the whole interceptor and the next Bind overwrites it — streams bound earlier then run with the parameters of the stream bound last")
+		} else {
+			o.ok("X4", key, p.Pos(fn.Pos()), "nothing derived from the StreamInfo is stored into a plain field of the interceptor")
+		}
+	}
+	o.ok("X4", "inspected", "-", fmt.Sprintf("%d Bind*Stream method(s)", n))
+}
+
+// otherLength: the length a reader returns is produced by writing other bytes into the caller's buffer — the result
+// of copy(…), of a Marshal/MarshalTo of a packet object, or of len(…) — as opposed to the upstream read's own length
+// (possibly through arithmetic, or handed through a repository helper that returns the length it was given). A
+// repository helper is looked into: it substitutes when one of its own returns does.
+func otherLength(p *Prog, v ssa.Value, isReadLen func(ssa.Value) bool, depth int) bool {
+	v = p.origin(v)
+	if _, isConst := v.(*ssa.Const); isConst || depth > 3 {
+		return false
+	}
+	if arithOf(p, v, isReadLen, 0) {
+		return false
+	}
+	switch x := v.(type) {
+	case *ssa.Phi:
+		for _, e := range x.Edges {
+			if otherLength(p, e, isReadLen, depth+1) {
+				return true
+			}
+		}
+		return false
+	case *ssa.Extract:
+		return otherLength(p, x.Tuple, isReadLen, depth)
+	case *ssa.Call:
+		if b := builtinName(&x.Call); b == "copy" || b == "len" {
+			return true
+		}
+		sc := x.Call.StaticCallee()
+		if sc == nil {
+			return false
+		}
+		if !p.InUniverse(sc) || sc.Blocks == nil {
+			return strings.HasPrefix(sc.Name(), "Marshal")
+		}
+		// a repository helper: one of its returns hands back another length than a parameter of its own
+		for _, b := range sc.Blocks {
+			ret, ok := b.Instrs[len(b.Instrs)-1].(*ssa.Return)
+			if !ok || len(ret.Results) == 0 || b == sc.Recover {
+				continue
+			}
+			if otherLength(p, returnedValue(ret, 0), func(w ssa.Value) bool { _, isPar := w.(*ssa.Parameter); return isPar }, depth+1) {
+				return true
+			}
+		}
+		return false
+	}
+	return false
+}
+
+// X5 — the parse cache's keys cannot collide with anybody else's. Attributes is a map[any]any that the application,
+// every interceptor and the library's own parse cache share. The cache entries (parsed RTP header, parsed RTCP
+// packets) are found again by key, and a key of a package-private *named* type can only be produced inside the
+// package. A key that is a plain int — an untyped iota constant boxed into `any` — is equal to every other int key of
+// the same value: an application's own `const key = iota`, or another interceptor's exported key. GetRTPHeader then
+// finds a foreign value under "its" key and fails every read with errInvalidType — or, if the value happens to be a
+// header, accounts the wrong packet. In the methods of Attributes: every map access whose key is a constant uses a key
+// of a named type declared in the root package.
+func x5CacheKeys(p *Prog, o *obls) {
+	n := 0
+	for _, fn := range p.Funcs {
+		if fn.Blocks == nil || fn.Signature.Recv() == nil || !strings.HasSuffix(typeKey(fn.Signature.Recv().Type()), "interceptor.Attributes") && !strings.HasSuffix(typeKey(fn.Signature.Recv().Type()), "fx.x5attrs") {
+			continue
+		}
+		var bad []string
+		k := 0
+		instrsOf(fn, func(in ssa.Instruction) {
+			var key ssa.Value
+			switch x := in.(type) {
+			case *ssa.Lookup:
+				key = x.Index
+			case *ssa.MapUpdate:
+				key = x.Key
+			default:
+				return
+			}
+			mi, ok := key.(*ssa.MakeInterface)
+			if !ok {
+				return
+			}
+			if _, isConst := mi.X.(*ssa.Const); !isConst {
+				return
+			}
+			k++
+			if nt := namedOf(mi.X.Type()); nt == nil || nt.Obj().Pkg() == nil || nt.Obj().Exported() {
+				bad = append(bad, fmt.Sprintf("the constant key %s of type %s is used at %s", mi.X.Name(), mi.X.Type().String(), p.instrPos(in)))
+			}
+		})
+		if k == 0 {
+			continue
+		}
+		n++
+		key := funcKey(fn) + ":cache-key"
+		if len(bad) > 0 {
+			sort.Strings(bad)
+			o.bad("X5", key, p.Pos(fn.Pos()), strings.Join(dedupe(bad), "; ")+": a key that is not of a package-private named type is equal to any other key of the same basic value that the application or another interceptor files in the same map")
+		} else {
+			o.ok("X5", key, p.Pos(fn.Pos()), fmt.Sprintf("%d constant-key access(es), all with keys of a package-private named type", k))
+		}
+	}
+	o.ok("X5", "inspected", "-", fmt.Sprintf("%d method(s) of Attributes with constant keys", n))
 }
